@@ -3,6 +3,7 @@ import StatimeModel.Lemmas.InstanceInv
 import StatimeModel.Lemmas.WireRoundtrip
 import StatimeModel.Props.C16
 import StatimeModel.Props.C08
+import StatimeModel.Generated.MsgCtors
 /-
 C10 — Master-side messages carry exact timestamps and consistent identifiers.
 
@@ -616,5 +617,54 @@ theorem seq_numbers_consecutive (ty : MsgType) (k : Nat) : ∀ (ops : List Op) (
             simp only [List.getElem_cons_succ, seqAfter]
             exact ⟨x, y, z.trans hid1⟩
         · simp only [List.length_cons, seqAfter]; exact e5
+
+/-! ### the message constructors as translated from the source on this run
+(`translator/extract_msgs.py` → `Generated/MsgCtors.lean`, interpreter `Lemmas/MsgGen.lean`): the header each
+constructor starts from, every field it overrides and the body, interpreted, are the model's `msgSync`, `msgFollowUp`,
+`msgDelayReq`, `msgDelayResp`, `msgPdelayReq` for all arguments (`Env`: default data set, port identity, sequence
+number, minor version, request header, timestamp, delay interval) -/
+section Translated
+open Statime.MsgGen
+
+theorem generated_sync_is_model (e : Env) :
+    ∀ c, Generated.syncCtor = some c → c.eval e = some (.ok (msgSync e.d e.pid e.seq e.minor)) := by
+  intro c h
+  unfold Generated.syncCtor at h
+  cases h
+  all_goals rfl
+
+theorem generated_delay_req_is_model (e : Env) :
+    ∀ c, Generated.delayReqCtor = some c → c.eval e = some (.ok (msgDelayReq e.d e.pid e.seq e.minor)) := by
+  intro c h
+  unfold Generated.delayReqCtor at h
+  cases h
+  all_goals rfl
+
+theorem generated_pdelay_req_is_model (e : Env) :
+    ∀ c, Generated.pdelayReqCtor = some c → c.eval e = some (.ok (msgPdelayReq e.d e.pid e.seq e.minor)) := by
+  intro c h
+  unfold Generated.pdelayReqCtor at h
+  cases h
+  all_goals rfl
+
+theorem generated_follow_up_is_model (e : Env) :
+    ∀ c, Generated.followUpCtor = some c → c.eval e = some (msgFollowUp e.d e.pid e.seq e.ts e.minor) := by
+  intro c h
+  unfold Generated.followUpCtor at h
+  cases h
+  all_goals (
+    unfold Ctor.eval msgFollowUp
+    cases hw : timeToWire e.ts <;> simp [setAll, setField, HBase.eval, BodyC.eval, liftOv, hw, Except.map, bind, Except.bind, Option.bind])
+
+theorem generated_delay_resp_is_model (e : Env) :
+    ∀ c, Generated.delayRespCtor = some c → c.eval e = some (msgDelayResp e.req e.pid e.ilog e.ts) := by
+  intro c h
+  unfold Generated.delayRespCtor at h
+  cases h
+  all_goals (
+    unfold Ctor.eval msgDelayResp
+    cases hw : timeToWire e.ts <;> simp [setAll, setField, HBase.eval, BodyC.eval, liftOv, hw, Except.map, bind, Except.bind, Option.bind])
+
+end Translated
 
 end Statime.C10
